@@ -72,7 +72,7 @@ static void do_dep(std::vector<std::string> const& tk)
   fflush(stdout);
   pid_t pid = fork();
   if (pid == 0) {
-    alarm(5);
+    alarm(15);
     int devnull = open("/dev/null", O_WRONLY);
     dup2(devnull, 2);
     size_t i = 1;
